@@ -34,6 +34,8 @@ class ValueInterp(Interp):
         k = e.get('k')
         if k == 'closure':
             return ('closure', e, dict(env))
+        if k == 'path' and e.get('res') in ('Fn', 'AssocFn') and (e.get('path') or '').startswith('toml::value::Value::'):
+            return ('fnpath', last_seg(e['path']))
         if k == 'mcall':
             name = e.get('name')
             recv = self.val(e['recv'], env)
@@ -81,7 +83,26 @@ class ValueInterp(Interp):
                     return False if recv == NONE else self.call_closure(f, [recv[2][0]])
         return super().val(e, env)
 
+    def matches(self, p, v, env):
+        if isinstance(v, AVal) and p.get('k') in ('p_tuplestruct', 'p_struct', 'p_expr') :
+            path = p.get('path') or (p.get('e') or {}).get('path') or ''
+            if path.startswith('toml::value::Value::'):
+                variant = last_seg(path)
+                kind = {'Array': 'array', 'Table': 'table'}.get(variant, 'scalar')
+                if v.kind != kind:
+                    return False
+                pats = p.get('pats') or [f['pat'] for f in p.get('fields', [])]
+                if pats:
+                    payload = v.elems if kind == 'array' else v
+                    return self.matches(pats[0], payload, env)
+                return True
+        if isinstance(v, AVal) and p.get('k') in ('p_ref', 'p_deref'):
+            return self.matches(p['pat'], v, env)
+        return super().matches(p, v, env)
+
     def call_closure(self, f, args):
+        if isinstance(f, tuple) and f[0] == 'fnpath' and len(args) == 1 and isinstance(args[0], AVal):
+            return self.val({'k': 'mcall', 'name': f[1], 'recv': {'k': 'path', 'res': 'Local', 'path': '@x'}, 'args': []}, {'@x': args[0]})
         if not (isinstance(f, tuple) and f[0] == 'closure'):
             raise Unanalysable('not a closure')
         _, node, env = f
@@ -106,22 +127,69 @@ def r1_passes(rep, facts, rid='C17/R1'):
     d = facts.method('serde::ser::Serialize', 'toml::value::Value', 'serialize')
     b = facts.body(d)
     loc = facts.loc(b)
+    # a pass = a `for` over the table's entries whose body calls serialize_entry; its predicate is the conjunction of the `filter` closures on the
+    # iterated expression (followed through let bindings) and of the `if` conditions around the serialize_entry call
+    from .shared import local_origins, conditions_above
+    org = local_origins(b['body'])
+    it = ValueInterp(Evaluator(facts))
     preds = []
-    for n in walk(b['body']):
-        if n.get('k') == 'loop' and 'ForLoop' in (n.get('src') or ''):
-            ifs = [x for x in walk(n) if x.get('k') == 'if' and any(y.get('k') == 'mcall' and y.get('name') == 'serialize_entry' for y in walk(x['then']))]
-            if len(ifs) == 1:
-                binds = [p['name'] for p in walk(n) if p.get('k') == 'p_bind' and p['name'].split('#')[0] == 'v']
-                preds.append((ifs[0]['cond'], binds[0] if binds else None))
+    for mt in walk(b['body']):
+        if mt.get('k') != 'match' or 'ForLoopDesugar' not in (mt.get('src') or ''):
+            continue
+        loops = [n for arm in mt['arms'] for n in walk(arm['body']) if n.get('k') == 'loop']
+        if not loops:
+            continue
+        lp = loops[0]
+        entries = [y for y in walk(lp) if y.get('k') == 'mcall' and y.get('name') == 'serialize_entry']
+        if len(entries) != 1:
+            continue
+        # the loop variable holding the value: second binder of the `(k, v)` pattern
+        vars_ = []
+        for arm in [a for m2 in walk(lp) if m2.get('k') == 'match' and 'ForLoopDesugar' in (m2.get('src') or '') for a in m2['arms']]:
+            bs = [p['name'] for p in walk(arm['pat']) if p.get('k') == 'p_bind']
+            if len(bs) >= 2:
+                vars_ = bs
+        if len(vars_) < 2:
+            continue
+        vvar = vars_[1]
+        conds = list(conditions_above(lp, entries[0]))
+        # filters on the iterated expression
+        expr = mt['scrut']
+        filters = []
+        seen = 0
+        stack = [expr]
+        while stack and seen < 40:
+            x = stack.pop()
+            seen += 1
+            x = peel(x)
+            if x.get('k') == 'call':
+                stack.extend(x.get('args', []))
+            elif x.get('k') == 'mcall':
+                if x.get('name') == 'filter' and x.get('args'):
+                    filters.append(peel(x['args'][0]))
+                stack.append(x['recv'])
+            elif x.get('k') == 'path' and x.get('res') == 'Local' and x.get('path') in org:
+                stack.append(org[x['path']])
+
+        def pred(av, conds=conds, filters=filters, vvar=vvar):
+            for c in conds:
+                if not it.run(c, {vvar: av}):
+                    return False
+            for f in filters:
+                if f.get('k') != 'closure':
+                    raise Unanalysable('filter argument is not a closure')
+                if not it.call_closure(('closure', f, {}), [(('key',), av)]):
+                    return False
+            return True
+        preds.append(pred)
     rep.check(R, 'passes|count', len(preds) == 3, f'{len(preds)} guarded emission loops', f'expected three guarded emission loops over the table, found {len(preds)}', loc)
     if len(preds) != 3:
         return
-    it = ValueInterp(Evaluator(facts))
     expected_pass = {'scalar': 0, 'empty array': 0, 'array of scalars': 0, 'array of arrays': 0, 'array of tables': 1, 'mixed array (scalar, table)': 1,
                      'mixed array (table, scalar)': 1, 'table': 2}
     for kname, av in KINDS.items():
         try:
-            hits = [i for i, (c, var) in enumerate(preds) if it.run(c, {var: av})]
+            hits = [i for i, pr in enumerate(preds) if pr(av)]
         except Unanalysable as e:
             rep.incomplete(R, f'kind {kname}', f'cannot evaluate the pass predicates: {e}', loc)
             continue
